@@ -655,10 +655,21 @@ impl GraphTensor {
         }
     }
 
+    /// Replace the contents of this graph with a snapshot.
+    pub fn replace_with(&self, snapshot: GraphTensorSnapshot) {
+        self.clear();
+        Self::fill(self, snapshot);
+    }
+
     /// Restore from a snapshot.
     #[must_use]
     pub fn restore(snapshot: GraphTensorSnapshot) -> Self {
         let graph = Self::new();
+        Self::fill(&graph, snapshot);
+        graph
+    }
+
+    fn fill(graph: &Self, snapshot: GraphTensorSnapshot) {
 
         // Restore edge types using consolidated registry
         {
@@ -691,8 +702,6 @@ impl GraphTensor {
         for (key, data) in snapshot.edge_data.iter() {
             graph.edge_data.set(key, data.clone());
         }
-
-        graph
     }
 
     /// Intern an edge type string, returning its ID.
